@@ -124,14 +124,16 @@ pub fn split_into_deflate_streams(
             }
 
             Signature::IDAT => {
-                if index >= 4 {
+                // the chunk length in front of the tag must not belong to bytes that were already emitted
+                if index >= prev_index + 4 {
                     // idat has the length first, then the "IDAT", so we need to look back 4 bytes
                     // if we find and IDAT
                     let real_start = index - 4;
                     if let Ok((r, payload)) = parse_idat(&src[real_start..], 0) {
                         if let Ok(res) = decompress_deflate_stream(&payload, true, loglevel) {
                             let length = r.total_chunk_length;
-                            if length > MIN_BLOCKSIZE {
+                            // recreate_idat needs the chunks to hold exactly zlib header + stream + adler32
+                            if length > MIN_BLOCKSIZE && res.compressed_size == payload.len() {
                                 locations_found.push(BlockChunk::Literal(real_start - prev_index));
 
                                 locations_found.push(BlockChunk::IDATDeflate(r, res));
